@@ -39,6 +39,69 @@ theorem one_reply_each (cfg : Cfg) (s : Srv) (fs : List Frame) (hp : ∀ f ∈ f
     (serve cfg s fs).end ≠ .aborted :=
   serveWith_answers true cfg s fs hp
 
+/-- The same without any hypothesis on the input (malformed frames mixed in): the replies are, in order, one for
+each consumed frame that is well-formed and not Unregister; an unparsable frame is the last one consumed, and it
+is exactly then that the loop ends by an exception. -/
+theorem replies_general (cfg : Cfg) (s : Srv) (fs : List Frame) :
+    (serve cfg s fs).consumed ≤ fs.length ∧
+    Matched Echoes ((fs.take (serve cfg s fs).consumed).filter fun f => f.parsable && !f.isUnregister)
+      (serve cfg s fs).replies ∧
+    ((serve cfg s fs).end = .open → (serve cfg s fs).consumed = fs.length) ∧
+    ((serve cfg s fs).end = .aborted ↔
+      ∃ f, fs[(serve cfg s fs).consumed - 1]? = some f ∧ 0 < (serve cfg s fs).consumed ∧ f.parsable = false) := by
+  simp only [serve]
+  induction fs generalizing s with
+  | nil => exact ⟨Nat.le_refl _, Matched.nil, fun _ => rfl, by simp [serveWith]⟩
+  | cons f fs ih =>
+    cases hpf : f.parsable with
+    | false =>
+      simp only [serveWith, process_unparsable true cfg s f hpf]
+      refine ⟨by simp, ?_, by simp, by simp [hpf]⟩
+      simp [hpf, Matched.nil]
+    | true =>
+      cases hu : f.isUnregister with
+      | true =>
+        simp only [serveWith, process_unregister true cfg s f hu]
+        refine ⟨by simp, ?_, by simp, by simp [hpf]⟩
+        simp [hu, Matched.nil]
+      | false =>
+        obtain ⟨r, hr⟩ := process_replies true cfg s f hpf hu
+        have hpe : processWith true cfg s f = ((processWith true cfg s f).1, .reply r) := by
+          rw [← hr]
+        have hech : Echoes f r := process_echoes true cfg s f r hr
+        rw [serveWith, hpe]
+        dsimp only
+        split
+        · obtain ⟨h1, h2, h3, h4⟩ := ih (processWith true cfg s f).1
+          refine ⟨?_, ?_, fun ho => by simp [h3 ho], ?_⟩
+          · simp only [List.length_cons]
+            exact Nat.succ_le_succ h1
+          · simp only [List.take_succ_cons, List.filter_cons, hpf, hu, Bool.not_false, Bool.and_self, ite_true]
+            exact Matched.cons hech h2
+          · rw [h4]
+            constructor
+            · rintro ⟨g, hg, hpos, hgp⟩
+              refine ⟨g, ?_, Nat.succ_pos _, hgp⟩
+              have : (serveWith true cfg (processWith true cfg s f).1 fs).consumed + 1 - 1
+                  = ((serveWith true cfg (processWith true cfg s f).1 fs).consumed - 1) + 1 := by omega
+              rw [this, List.getElem?_cons_succ]
+              exact hg
+            · rintro ⟨g, hg, _, hgp⟩
+              by_cases h0 : (serveWith true cfg (processWith true cfg s f).1 fs).consumed = 0
+              · simp only [h0, Nat.zero_add, Nat.sub_self, List.getElem?_cons_zero, Option.some.injEq] at hg
+                subst hg
+                rw [hpf] at hgp
+                cases hgp
+              · refine ⟨g, ?_, Nat.pos_of_ne_zero h0, hgp⟩
+                have : (serveWith true cfg (processWith true cfg s f).1 fs).consumed + 1 - 1
+                    = ((serveWith true cfg (processWith true cfg s f).1 fs).consumed - 1) + 1 := by omega
+                rw [this, List.getElem?_cons_succ] at hg
+                exact hg
+        · refine ⟨by simp, ?_, by simp, by simp [hpf]⟩
+          simp only [List.take_succ_cons, List.take_zero, List.filter_cons, hpf, hu, Bool.not_false, Bool.and_self,
+            ite_true, List.filter_nil]
+          exact Matched.cons hech Matched.nil
+
 /-- the number of replies is the number of consumed frames that are not Unregister Session -/
 theorem reply_count (cfg : Cfg) (s : Srv) (fs : List Frame) (hp : ∀ f ∈ fs, f.parsable = true) :
     (serve cfg s fs).replies.length = (expected (fs.take (serve cfg s fs).consumed)).length :=
@@ -97,6 +160,34 @@ theorem register_handle (cfg : Cfg) (s : Srv) (f : Frame) (proto opts : Nat) (ex
 theorem unregister_silent (cfg : Cfg) (s : Srv) (f : Frame) (rest : List Frame) (hu : f.isUnregister = true) :
     serve cfg s (f :: rest) = ⟨{ s with session := none }, [], 1, .closed⟩ := by
   simp [serve, serveWith, process_unregister true cfg s f hu]
+
+/-- **One frame on the wire.**  The bytes sent for a reply are a 24-byte header whose length field is the length
+of the payload that follows, whose bytes 12..19 are the sender context: exactly one encapsulation frame. -/
+theorem reply_is_one_frame (r : ReplyFrame) (hc : r.context.length = 8) :
+    r.encode.length = 24 + r.payload.length ∧
+    (r.encode.drop 2).take 2 = Bytes.le 2 r.payload.length ∧
+    (r.encode.drop 12).take 8 = r.context ∧
+    r.encode.drop 24 = r.payload := by
+  have l2 : ∀ n, (Bytes.le 2 n).length = 2 := fun n => Logix.le_length 2 n
+  have l4 : ∀ n, (Bytes.le 4 n).length = 4 := fun n => Logix.le_length 4 n
+  have e1 : r.encode = Bytes.le 2 r.command ++ (Bytes.le 2 r.payload.length ++
+      (Bytes.le 4 r.session ++ Bytes.le 4 r.status ++ r.context ++ Bytes.le 4 r.options ++ r.payload)) := by
+    simp [ReplyFrame.encode]
+  have e2 : r.encode = (Bytes.le 2 r.command ++ Bytes.le 2 r.payload.length ++ Bytes.le 4 r.session
+      ++ Bytes.le 4 r.status) ++ (r.context ++ (Bytes.le 4 r.options ++ r.payload)) := by
+    simp [ReplyFrame.encode]
+  have e3 : r.encode = (Bytes.le 2 r.command ++ Bytes.le 2 r.payload.length ++ Bytes.le 4 r.session
+      ++ Bytes.le 4 r.status ++ r.context ++ Bytes.le 4 r.options) ++ r.payload := by
+    simp [ReplyFrame.encode]
+  refine ⟨by simp [ReplyFrame.encode, l2, l4, hc]; omega, ?_, ?_, ?_⟩
+  · rw [e1, List.drop_left' (l2 _), List.take_left' (l2 _)]
+  · rw [e2, List.drop_left' (by simp [l2, l4]), List.take_left' hc]
+  · rw [e3, List.drop_left' (by simp [l2, l4, hc])]
+
+/-- the reply to a request with an 8-octet sender context has one -/
+theorem reply_context_length (cfg : Cfg) (s : Srv) (f : Frame) (r : ReplyFrame)
+    (h : (process cfg s f).2 = .reply r) (hc : f.hdr.context.length = 8) : r.context.length = 8 := by
+  rw [(reply_echo cfg s f r h).2.1]; exact hc
 
 /-! ## supported services: reply bit inside the same framing -/
 
